@@ -7,19 +7,21 @@ seedtool.py keep   <PID> <k> <seed-id>  - copy patch/demo/note into /verif/seede
 """
 import json, os, shutil, subprocess, sys
 
+OUT = os.environ.get("SEED_OUT", "_out")  # sub-directory of the worktree holding patch<k>.diff / demo<k> / note<k>
+
 def sh(cmd, **kw):
     return subprocess.run(cmd, shell=True, capture_output=True, text=True, **kw)
 
 def wt(pid): return f"/tmp/seed/{pid}"
 
 def demo_cmd(pid, k):
-    o = f"{wt(pid)}/_out"
+    o = f"{wt(pid)}/{OUT}"
     if os.path.exists(f"{o}/demo{k}.py"):
         return f"/venv/bin/python {o}/demo{k}.py {wt(pid)}"
     return f"bash {o}/demo{k}.sh {wt(pid)}"
 
 def verify(pid, k):
-    w = wt(pid); o = f"{w}/_out"
+    w = wt(pid); o = f"{w}/{OUT}"
     sh(f"git -C {w} checkout -- compiler lib")
     r = sh(f"git -C {w} apply --check {o}/patch{k}.diff")
     if r.returncode: return {"ok": False, "why": "patch does not apply: " + r.stderr[:200]}
@@ -34,24 +36,24 @@ def verify(pid, k):
     return res
 
 def check(pid, k, props):
-    w = wt(pid); o = f"{w}/_out"
+    w = wt(pid); o = f"{w}/{OUT}"
     sh(f"git -C {w} checkout -- compiler lib")
     sh(f"git -C {w} apply {o}/patch{k}.diff")
     out = {}
+    import tempfile
+    evdir = tempfile.mkdtemp(prefix="seed-ev-")
     try:
         for p in props:
-            r = sh(f"VERIF_REPO={w} python3 /verif/check {p}", cwd="/tmp")
+            r = sh(f"VERIF_EVIDENCE_DIR={evdir} VERIF_REPO={w} python3 /verif/check {p}", cwd="/tmp")
             lines = [l for l in r.stdout.splitlines() if l.startswith(("VIOLATION", "ANALYSIS-ERROR", "RESULT")) or "] " in l[:120] and l.startswith(("compiler", "lib"))]
             out[p] = {"exit": r.returncode, "lines": lines[:8]}
     finally:
         sh(f"git -C {w} checkout -- compiler lib")
-        # evidence files were rewritten against the variant: restore by re-running on /repo
-        for p in props:
-            sh(f"python3 /verif/check {p}")
+        shutil.rmtree(evdir, ignore_errors=True)
     return out
 
 def keep(pid, k, sid, extra):
-    o = f"{wt(pid)}/_out"; d = f"/verif/seeded/{sid}"
+    o = f"{wt(pid)}/{OUT}"; d = f"/verif/seeded/{sid}"
     os.makedirs(d, exist_ok=True)
     shutil.copy(f"{o}/patch{k}.diff", f"{d}/patch.diff")
     for ext in ("py", "sh"):
